@@ -9,6 +9,7 @@
   filter predicates are ARBITRARY functions; relations are arbitrary lists of rows.
 -/
 import DfModel.Sql.Join
+import DfModel.Sql.Project
 import DfModel.Gen.PushDownFilterTbl
 import DfModel.Gen.EliminateOuterTbl
 import DfModel.Proofs.C03
@@ -194,6 +195,53 @@ theorem swap_semantics (jt : JoinType) (wl wr : Nat) (on : Row → Row → Bool)
     (h : jt = .LeftSemi ∨ jt = .RightSemi ∨ jt = .LeftAnti ∨ jt = .RightAnti ∨ jt = .LeftMark ∨ jt = .RightMark) :
     join jt wl wr on L R = join jt.swap wr wl (fun r l => on l r) R L := by
   rcases h with h | h | h | h | h | h <;> subst h <;> rfl
+
+
+/-! ### Stacked equal projections (the `optimize_projections` fast path; /repo fix d3a6a65)
+
+  `merge_consecutive_projections_one_level` used to drop the outer of two consecutive projections
+  whenever their expression lists were structurally equal.  That is the law
+  `project items ∘ project items = project items`, which holds for plain column lists and fails for
+  computed items — the repaired code only takes the fast path for plain columns. -/
+section Projections
+open DfModel.Sql.Project
+
+/-- **A projection made of plain column references is idempotent**: applying the same column list
+    twice is applying it once — on every row, for every list (duplicates, any order). -/
+theorem project_idempotent_of_columns (items : List Item)
+    (hcols : ∀ it ∈ items, ∃ c, it = col c) (env : Env) :
+    project items (project items env) = project items env := by
+  funext n
+  show (match items.find? (fun it => it.name == n) with
+        | some it => it.expr (project items env)
+        | none => none) = project items env n
+  cases h : items.find? (fun it => it.name == n) with
+  | none => simp [project, h]
+  | some it =>
+    obtain ⟨c, rfl⟩ := hcols it (List.mem_of_find?_eq_some h)
+    have hn : c = n := by
+      have := List.find?_some h
+      simpa [col] using this
+    subst hn
+    simp only [col, project, h]
+
+/-- … hence the fast path is sound on whole relations when every item is a plain column. -/
+theorem fast_path_sound_for_columns (items : List Item) (hcols : ∀ it ∈ items, ∃ c, it = col c) (rows : List Env) :
+    (rows.map (project items)).map (project items) = rows.map (project items) := by
+  rw [List.map_map]
+  apply List.map_congr_left
+  intro env _
+  exact project_idempotent_of_columns items hcols env
+
+/-- **It is NOT sound for computed items**: `s + 4 AS s` over `s + 4 AS s` on the one row `s = 1`
+    is `9`, a single application is `5` (the defect fixed by /repo d3a6a65: the engine returned
+    `sum + 4` instead of `sum + 8`). -/
+theorem fast_path_unsound_witness :
+    project [col "a", plusAs "s" 4] (project [col "a", plusAs "s" 4] (fun n => if n = "s" then some 1 else some 0)) "s" = some 9 ∧
+    project [col "a", plusAs "s" 4] (fun n => if n = "s" then some 1 else some 0) "s" = some 5 := by
+  decide
+
+end Projections
 
 -- non-vacuity / tests
 example : join .Left 1 1 eqOn [[some 1], [some 2]] [[some 2]] = [[some 1, none], [some 2, some 2]] := by decide
